@@ -36,6 +36,14 @@ Domain : as C01 (vf.pipeline configurations: Colang 1.0 / 2.x, dialog rails on/o
          history - `hide_prev_turn`; Colang 2.x: the flow carries on).  A failure is the third kind of turn event of the statement's
          last sentence: the faulted turn itself must not return unchecked / rejected LLM text (nothing else is asserted about it),
          every later turn is judged by the unchanged memoryless model.
+         Turn key `vars` ({"tokens": [...], "place": "end"|"end."|"start"|"mid"|"glued"}): the fresh message texts of the turn carry
+         1-3 `$` tokens - `$<name>` where the name is a variable the CALLER planted (case key `context`: {name: value}, sent as a
+         `context` role message in front of the Colang 1.0 history; string / number / list values), a key the runtime keeps in the
+         context of the conversation ($last_user_message, $user_message, $bot_message, $relevant_chunks, $i, $event, ...) or a name
+         nothing defines, and `$` followed by no identifier at all ($5, $10.50, US$).  To the pipeline an LLM completion is data:
+         the reply carries it exactly as the output rails released it (a rewriting fake rail keeps the tokens in its rewritten
+         form).  Not put into Colang 2.x flow-continuation completions nor into the inline text of next-steps completions (there
+         the text is part of a generated flow - C17's subject).
          Colang 2.x route `par` (configuration key "ext": "c02-par", dialog True): `vf llm reply and vf llm reply` - two
          LLM texts obtained and said IN PARALLEL (and-group).  Generated only when PARALLEL_ROUTE is on (see there).
 Oracle : reference model of the output chain (vf.pipeline.model_output) per LLM-generated text, memoryless over
@@ -46,6 +54,9 @@ Oracle : reference model of the output chain (vf.pipeline.model_output) per LLM-
            * a rejected text is absent from the reply (also in rewritten form), the rail's refusal / rail
              exception is present;
            * whatever output-rail invocations happened on an LLM text follow the configured order;
+           * the text is in the reply exactly as the rails released it (white space aside): as handed back by the last rewriting
+             rail / as given to every rail that judged the final form; outside these released texts the reply carries no
+             LLM-lineage text (a reply that differs from what was released is text no rail saw);
            * a part of the completion (the reasoning block) that shows up in the reply was in the text every rail that
              judged the un-rewritten completion was given (a part no rail saw is unchecked LLM text); likewise the two ends
              of a long completion: an end that shows up in the reply was given to each of those rails (in any of the rail's
@@ -60,7 +71,9 @@ Open on the unchanged tree (reported, not listed yet): C02-F23 - Colang 2.x, two
          `$output_rails_in_progress` set by the first `_bot_say` makes the second one skip `run output rails`, its LLM text
          is uttered unchecked (repro replays/known/C02/v2-parallel-llm-replies-second-unchecked.json).
 """
+import copy
 import os
+import re
 
 from hypothesis import strategies as st
 
@@ -100,6 +113,17 @@ RULE = (
     "llm, X+fault, llm with every single-turn event, llm for every such route X, two faulted turns in a row before a predefined+LLM turn, "
     "faulted and fault-free runs of the same route in one conversation. Labels fault:action-raises-after-predefined-message / "
     "-after-llm-message / -as-first-step, fault:v<n>:<route>, llm-turn-right-after-faulted-turn, faulted-turn-before-later-llm-turn. "
+    "Body shape 'completion with $ tokens' (turn key vars; two fifths of the conversations, there two thirds of the turns without a long "
+    "completion; not in Colang 2.x flow-continuation completions): the fresh message texts of the turn carry 1-3 tokens drawn from "
+    "$<planted name> (half of the Colang 1.0 conversations of this kind plant 1-3 variables account_pin / user_name / customer_id / api_key "
+    "with string, number or list values through a context role message in front of the history - case key context), $<run-time context "
+    "key> (last_user_message, user_message, bot_message, last_bot_message, relevant_chunks, i, event, allowed, ...), $<name nothing "
+    "defines> and non-identifiers ($5, $10.50, $, US$, $(x)), placed at the end (with / without a glued full stop), at the start, behind "
+    "the marker or glued to punctuation; a later repeat_llm turn repeats the tokens while the context has moved on; rewriting fake rails "
+    "keep the tokens. Enumerated first (28 cases): plain turn, tokens, tokens under reject / rewrite, repeat of the token text - per "
+    "token family x 4 Colang 1.0 configurations (general mode, routes llm / pl / lp / act_var / next_llm) + 2 Colang 2.x controls. Labels "
+    "llm-text-with-dollar-token:<planted-context-variable|run-time-context-key|unknown-name|not-an-identifier>:<passed|rewritten|rejected>, "
+    ":place-<p>, :repeated-from-earlier-turn, context-variables-planted-by-caller. "
     "Colang 2.x route par (two LLM "
     "replies said in parallel, hand-written rails) only while PARALLEL_ROUTE is on. Non-trivial = at least 2 turns and a reject or rewrite by an output rail in a turn strictly before the "
     "last turn that generated an LLM message, or a repeated LLM text in a conversation with a reject/rewrite, or a call with the output "
@@ -116,6 +140,7 @@ ASSUMPTIONS = [
     "a completion may be longer than an output rail can take (the shipped self check output rail renders it into a prompt of at most 16000 characters): the rail may then fail and the turn be answered with a refusal / the internal-error message - nothing is asserted about such a turn except that the text is absent; a text that IS returned was given to every rail of the chain completely (both ends), in one or several invocations",
     "a bot message text that the LLM writes into its generate_next_steps completion (inline, under the bot step) is LLM text of that turn: the implementation may ignore it (the unchanged tree does: it asks for the message again), no obligation arises unless the text reaches a reply",
     "a custom action that raises is a failure of its turn in the sense of the statement's last sentence: how the faulted turn is answered is C03's subject (here only: it returns no LLM text that did not pass the complete chain, and the refusal of a rejecting rail is not demanded in it); every later turn of the conversation is checked exactly like a turn of a conversation without the failure. The fault is raised by the fake custom action itself (fakes.InjectedFault, a RuntimeError); rail actions and the LLM never fail here",
+    "an LLM completion is data: `$name`, `$5` and the like inside it mean nothing to the pipeline (only predefined bot messages are documented as templates over context variables), so the message returned to the caller is, white space aside, character by character the text the output rails released - the rewritten form if a rail rewrote it; context variables are planted by the caller with a `context` role message in front of the Colang 1.0 message history (documented way), never for Colang 2.x",
     "a turn that needs more than 100 internal events makes the Colang 1.0 runtime raise `Too many events.`; such cases are counted as skipped",
 ]
 
@@ -187,6 +212,61 @@ def long_text(t, k, body, n, place):
 
 NEXT_STEPS_SHAPES = ("inline", "inline+predef", "predef+inline", "sameline")
 
+# ------------------------------------------------------------------------------------------------
+# LLM completions that contain `$<name>` tokens (turn key "vars"; case key "context" = variables the caller plants)
+
+# names of variables the caller may plant with a `context` role message in front of the conversation (Colang 1.0)
+PLANTED_NAMES = ("account_pin", "user_name", "customer_id", "api_key")
+PLANTED_VALUES = ("CTXV0Z 904117", 904117, "CTXV1Z jane.doe@example.com", "CTXV2Z secret value", 3.5, True, ["CTXV3Z", 7])
+# names the runtime itself keeps in the context of a conversation (documented context variables and variables of the shipped
+# flows / of the generated rail flows); which of them exist at a given moment does not matter to the oracle
+RUNTIME_NAMES = (
+    "last_user_message", "user_message", "bot_message", "last_bot_message", "relevant_chunks", "last_bot_intent", "last_user_intent",
+    "i", "output_flows", "input_flows", "triggered_output_rail", "triggered_input_rail", "allowed", "vf_checked", "answer", "event",
+    "generation_options", "skip_output_rails", "relevant_chunks_sep", "retrieved_for",
+)
+UNKNOWN_NAMES = ("price_list", "total", "USD", "x", "account", "user_messages", "Bot_Message")
+# `$` followed by something that is not an identifier (prices and the like), or an identifier glued to other characters
+NON_IDENTIFIERS = ("$5", "$10.50", "$", "$$", "$ 7", "US$", "$-1", "$(x)", "5$")
+VAR_PLACES = ("end", "end.", "start", "mid", "glued")
+_VAR_TOKEN = re.compile(r"\S*\$\S*")
+
+
+def var_kind(token, context):
+    """Label bucket of a token of a "vars" turn: what kind of name follows the `$`."""
+    m = re.fullmatch(r"[^$]*\$([A-Za-z_][A-Za-z0-9_]*)(.*)", token)
+    if not m:
+        return "not-an-identifier"
+    name = m.group(1)
+    if name in (context or {}):
+        return "planted-context-variable"
+    if name in RUNTIME_NAMES:
+        return "run-time-context-key"
+    return "unknown-name"
+
+
+def with_vars(text, marker, spec):
+    """The fresh message text `text` (= `marker rest`) with the `$` tokens of the turn key "vars" put in: place "end" / "end." (a
+    sentence with the tokens closes the text, with / without a full stop glued to the last token), "start" (the tokens come first),
+    "mid" (right behind the marker), "glued" (every token directly followed by a letter-free suffix: `$name,` `$name!` ...)."""
+    tokens = [str(x) for x in spec.get("tokens", [])]
+    if not tokens:
+        return text
+    place = spec.get("place", "end")
+    if place == "glued":
+        sep = (",", "!", "?", ";", ":")
+        return text + " " + " ".join(tok + sep[n % len(sep)] for n, tok in enumerate(tokens)) + " ok"
+    joined = " ".join(tokens)
+    if place == "start":
+        return f"{joined} {text}"
+    if place == "mid" and text.startswith(marker + " "):
+        return f"{marker} {joined} {text[len(marker) + 1:]}"
+    return f"{text} on file is {joined}" + ("." if place == "end." else "")
+
+
+def _norm(s):
+    return " ".join(str(s).split())
+
 
 class _Session(fakes.Session):
     """Turn key "think" (text): the message completions of the turn start with `<think>...</think>`, then the usual
@@ -201,11 +281,34 @@ class _Session(fakes.Session):
 
     def message_text(self, turn, k, body):
         text = super().message_text(turn, k, body)
-        lg = self.turns[turn].get("long") if turn < len(self.turns) else None
-        if lg and text == f"{fakes.mk_llm(turn, k)} {body}":  # a fresh text (a repeated one stays verbatim)
-            text = long_text(turn, k, body, lg["n"], lg.get("place", "head"))
+        spec = self.turns[turn] if turn < len(self.turns) else {}
+        lg, vs = spec.get("long"), spec.get("vars")
+        if (lg or vs) and text == f"{fakes.mk_llm(turn, k)} {body}":  # a fresh text (a repeated one stays verbatim, `$` tokens included)
+            if lg:
+                text = long_text(turn, k, body, lg["n"], lg.get("place", "head"))
+            else:
+                text = with_vars(text, fakes.mk_llm(turn, k), vs)
             self.message_texts[turn][-1] = text
         return text
+
+    def rewritten(self, cat, idx, turn, text):
+        """A rewriting output rail keeps the `$` tokens of the text it rewrites (as a rail that masks e-mail addresses or trims
+        a text would): the rewritten form is `RWO..Z sanitized output` + the tokens, in their order."""
+        out = super().rewritten(cat, idx, turn, text)
+        if cat == "out" and "$" in str(text) and fakes.lineage(text):
+            out += " " + " ".join(_VAR_TOKEN.findall(str(text)))
+        return out
+
+    # the history the caller re-sends with every call (Colang 1.0) starts with the `context` message that plants case["context"]
+    @property
+    def messages(self):
+        return self._messages
+
+    @messages.setter
+    def messages(self, value):
+        planted = self.case.get("context")
+        head = [{"role": "context", "content": copy.deepcopy(planted)}] if planted and self.cfg["v"] == 1 else []
+        self._messages = head + list(value)
 
     def should_fail(self, action_name, k):
         entry = self.trace[-1]  # appended by fakes._enter just before this call
@@ -400,7 +503,22 @@ def _case(draw):
     p_long = [False, False, True] if "self" in cfg["out"] else [False] * 11 + [True]
     with_options = v == 1 and draw(st.sampled_from([False, False, True]))
     can_think = not (v == 2 and cfg["dialog"] == "llmc")
-    turns = []
+    # completions with `$` tokens: in two fifths of the conversations (not in Colang 2.x flow-continuation completions, where the
+    # text is part of a generated flow - C17's subject); in half of those of Colang 1.0 the caller plants context variables
+    with_dollar = can_think and draw(st.sampled_from([False, False, False, True, True]))
+    planted = {}
+    if with_dollar and v == 1 and draw(st.booleans()):
+        for name in draw(st.lists(st.sampled_from(PLANTED_NAMES), min_size=1, max_size=3, unique=True)):
+            planted[name] = draw(st.sampled_from(PLANTED_VALUES))
+    st_token = st.one_of(
+        st.sampled_from(PLANTED_NAMES).map(lambda n: "$" + n),
+        st.sampled_from(sorted(planted) or PLANTED_NAMES[:1]).map(lambda n: "$" + n),
+        st.sampled_from(RUNTIME_NAMES).map(lambda n: "$" + n),
+        st.sampled_from(RUNTIME_NAMES[:5]).map(lambda n: "$" + n),
+        st.sampled_from(UNKNOWN_NAMES).map(lambda n: "$" + n),
+        st.sampled_from(NON_IDENTIFIERS),
+    )
+    turns, dollar = [], []
     for t in range(draw(st.sampled_from([2, 2, 3, 3, 4, 5]))):
         repeat = draw(st.sampled_from([None, None, t - 1, t - 1, draw(st.integers(0, t - 1))])) if t >= 1 else None
         turns.append(
@@ -432,15 +550,72 @@ def _case(draw):
         if draw(st.sampled_from(p_long)):
             # a very long completion: checked material at its beginning and its end
             turns[-1]["long"] = {"n": draw(_ST_LONG_N), "place": draw(st.sampled_from(["head", "tail"]))}
-    return {"config": cfg, "turns": turns, "api": draw(st.sampled_from(["sync", "async"]))}
+        elif with_dollar and draw(st.sampled_from([True, True, False])):
+            # the fresh message texts of the turn carry 1-3 `$` tokens (a later turn that repeats the text repeats them)
+            turns[-1]["vars"] = {"tokens": draw(st.lists(st_token, min_size=1, max_size=3)), "place": draw(st.sampled_from(VAR_PLACES))}
+        dollar.append(bool(turns[-1].get("vars")) or (repeat is not None and dollar[repeat]))
+        if dollar[-1] and turns[-1].get("steps"):
+            del turns[-1]["steps"]  # (the inline text of a next-steps completion is part of a generated flow: no `$` tokens in there)
+    case = {"config": cfg, "turns": turns, "api": draw(st.sampled_from(["sync", "async"]))}
+    if planted:
+        case["context"] = planted
+    return case
 
 
 def strategy(tier):
     return _case()
 
 
+DOLLAR_FAMILIES = (
+    # (tokens of turn 1, tokens of turn 2, variables the caller plants)
+    (["$account_pin"], ["$user_name", "$account_pin"], {"account_pin": "CTXV0Z 904117", "user_name": "CTXV1Z jane.doe@example.com"}),
+    (["$5", "$customer_id", "$price_list"], ["$10.50", "$api_key"], {"customer_id": 904117, "api_key": ["CTXV3Z", 7]}),
+    (["$last_user_message"], ["$user_message", "$last_bot_message"], None),
+    (["$bot_message", "$10.50"], ["$relevant_chunks", "$bot_message"], None),
+    (["$i", "$event"], ["$triggered_output_rail", "$allowed", "US$"], None),
+    (["$price_list", "$5", "$", "$(x)"], ["$total", "$ 7"], {"account_pin": "CTXV0Z 904117"}),  # nothing that names a variable
+)
+
+
+def _enumerate_dollar():
+    """Completions with `$` tokens: a plain turn, a turn whose text carries tokens, a turn with tokens under a reject / rewrite,
+    a turn in which the LLM repeats the text of the second turn (the context has moved on), for planted variables, run-time keys,
+    unknown names and prices; every place of the tokens; Colang 1.0 general mode and dialog routes, two Colang 2.x controls."""
+    n = 0
+    combos = (
+        (1, False, ["check"], False), (1, True, ["both", "check"], False), (1, True, ["rewrite", "self"], True), (1, False, ["both", "self"], True),
+        (2, False, ["check"], False), (2, True, ["check", "self"], True),
+    )
+    for v, dialog, kinds, exc in combos:
+        cfg = {"v": v, "in": [], "out": kinds, "dialog": dialog, "exc": exc}
+        if v == 2:
+            cfg["style"] = "hand" if dialog else "config"
+        else:
+            cfg["ret"] = 0
+        A = ["accept"] * len(kinds)
+        events = [A[:-1] + ["reject"]] + ([["rewrite"] + A[1:]] if kinds[0] in ("both", "rewrite") else [["reject"] + A[1:]])
+        for first, second, planted in DOLLAR_FAMILIES[:: 1 if v == 1 else 3]:
+            ev = events[n % len(events)]
+            r1 = ("llm", "pl", "act_var", "lp")[n % 4] if v == 1 else ("llm", "lp", "pl")[n % 3]
+            r2 = ("act_var", "llm", "next_llm", "pl")[n % 4] if v == 1 else "llm"
+            p1, p2 = VAR_PLACES[n % len(VAR_PLACES)], VAR_PLACES[(n + 2) % len(VAR_PLACES)]
+            n += 1
+            turns = []
+            for t, (route, out, vs, rep) in enumerate([("llm", A, None, None), (r1, A, {"tokens": first, "place": p1}, None), (r2, ev, {"tokens": second, "place": p2}, None), ("llm", A, None, 1)]):
+                turns.append({"user": f"{fakes.mk_user(t)} how is the weather", "route": route, "in": [], "out": out, "body": "some answer"})
+                if vs:
+                    turns[-1]["vars"] = vs
+                if rep is not None:
+                    turns[-1]["repeat_llm"] = rep
+            case = {"config": cfg, "turns": turns, "api": "sync"}
+            if planted and v == 1:
+                case["context"] = planted
+            yield case
+
+
 def enumerate_cases(tier):
     """Deterministic core: 3-turn conversations `ok, X, ok` and `predefined, X, ok` for every single-turn event X."""
+    yield from _enumerate_dollar()
     for v in (1, 2):
         kinds_list = [["check", "self"], ["check", "check"]] if v == 2 else [["check", "both"], ["rewrite", "self"], ["both"]]
         for kinds in kinds_list:
@@ -633,6 +808,11 @@ def _detail(cfg, t, **kw):
     return d
 
 
+def _clip(s, n=200):
+    s = str(s)
+    return s if len(s) <= n else f"{s[:n // 2]} ...({len(s)} characters)... {s[-n // 2:]}"
+
+
 def _first_message_kind(cfg, route):
     """"P" / "L": kind of the first bot message of the flow the route selects (labels only)."""
     if not cfg["dialog"]:
@@ -671,6 +851,11 @@ def _check(case, obs):
         labels.append("multi-step-generation")
     if _ext_has(cfg, "act"):
         labels.append("flows-with-action-after-bot-message")
+    planted = case.get("context") if v == 1 else None
+    if planted:
+        labels.append("context-variables-planted-by-caller")
+        if (obs.session.messages or [{}])[0].get("role") != "context":
+            raise RuntimeError("c02: the case plants context variables but the history sent to generate does not start with the context message")
     faulted_at = []  # turns in which a custom action raised
     failed_closed_at = []  # turns whose over-long LLM completion was answered with a refusal / the internal-error message
     off_turns = []  # calls served with the output rails switched off (nothing asserted about them)
@@ -739,6 +924,7 @@ def _check(case, obs):
             off_turns.append(t)
             for ln in generated:
                 fate[ln] = (t, "served-with-output-rails-off")
+        turn_released = []  # (white-space normalised) texts the output rails released in this turn and the reply carries
         for ln in generated if not off else ():
             tt, k = ln
             m = pipeline.model_output(cfg, spec, tt, k)
@@ -793,6 +979,20 @@ def _check(case, obs):
                 # ... and is returned in its final form only
                 if m["final"] not in text or (m["final"] != m["orig"] and present_raw):
                     raise Violation("rewrite-not-returned", f"{tag}: expected the reply to carry {m['final']} (and not the original), got {text[:120]!r}", _detail(cfg, t, **sig))
+                # ... which is the text the rails released, character by character (white space aside): what the last rewriting rail
+                # handed back, and what every rail that judged that final form was given (a rail that is handed a long text piece by
+                # piece saw pieces of the reply).  A reply that differs from it carries text no output rail saw.
+                rw = [i for i, c in enumerate(m["calls"]) if c["verdict"] == "rewrite"]
+                released = [(f"the form rail out{rw[-1]} rewrote it to", obs.session.rewritten("out", rw[-1], t, entries[rw[-1]]["text"]))] if rw else []
+                released += [(f"the text rail {c['rail']} was given", e["text"]) for c, e in zip(m["calls"], entries) if c["sees"] == m["final"] and e.get("text") is not None]
+                for which, r in released:
+                    if _norm(r) not in _norm(text):
+                        raise Violation(
+                            "reply-differs-from-released-text",
+                            f"{tag}: the reply carries the text, but not as the output rails released it - {which} is {_clip(r)!r}, the reply is {_clip(text)!r}",
+                            _detail(cfg, t, **sig),
+                        )
+                    turn_released.append(_norm(r))
             if m["blocked"] is not None and len(entries) >= m["need"] and not faulted:
                 # (c) the rejection was delivered: the refusal (or rail exception) of a rejecting rail is the answer
                 rej = [i for i, c in enumerate(m["calls"][: len(entries)]) if c["verdict"] == "reject"]
@@ -828,12 +1028,29 @@ def _check(case, obs):
             if spec.get("think"):
                 labels.append("think:" + ("rejected" if m["blocked"] is not None else ("rewritten" if m["final"] != m["orig"] else "passed")) + ("" if present_any or m["blocked"] is not None else "(not uttered)"))
             now = "rejected" if m["blocked"] is not None else ("rewritten" if m["final"] != m["orig"] else "passed")
+            produced = next((str(c["answer"]) for c in o["llm"] if c["answer"] is not None and c["task"] in fakes.MESSAGE_TASKS and ln in fakes.lineage(c["answer"])), "")
+            if "$" in produced:
+                outcome = now + ("" if present_any or m["blocked"] is not None else "(not uttered)")
+                for tok in _VAR_TOKEN.findall(produced):
+                    labels.append(f"llm-text-with-dollar-token:{var_kind(tok, planted)}:{outcome}")
+                labels.append("llm-text-with-dollar-token" + (":repeated-from-earlier-turn" if tt != t else f":place-{(spec.get('vars') or {}).get('place')}"))
             if tt != t and ln in messages:
                 repeated = True
                 labels.append("repeated-llm-text")
                 if ln in fate:
                     labels.append(f"repeat:{fate[ln][1]}-then-{now}" + ("(consecutive-turns)" if fate[ln][0] == t - 1 else ""))
             fate[ln] = (t, now)
+        if not off:
+            # ... and outside the released texts the reply carries no LLM text at all (e.g. a second copy of the message)
+            rest = _norm(text)
+            for r in sorted(set(turn_released), key=len, reverse=True):
+                rest = rest.replace(r, " ")
+            if fakes.lineage(rest):
+                raise Violation(
+                    "unchecked-llm-text-in-reply",
+                    f"{what}: next to the text(s) the output rails released ({[_clip(r, 120) for r in sorted(set(turn_released))]}) the reply carries more LLM text, which no rail was given in this form: {_clip(rest)!r}; reply {_clip(text)!r}",
+                    _detail(cfg, t, route=spec.get("route")),
+                )
         kind_now = "L" if messages else "P"
         if prev_kind and prev_kind != kind_now:
             labels.append("alternation-" + prev_kind + kind_now)
